@@ -41,7 +41,7 @@ func VerifC26_close() {
 				verifrt.Reach("C26.close.dropped")
 			}
 			verifrt.Assert(h.drops[k] == wantDrops, "C26.close.dropcount")
-			if k == 0 && h.canceled[0] && !h.answered[0] && !h.closedByScenario {
+			if k == 0 && h.canceled[0] && len(h.tags[0]) == 0 && !h.gotErr[0] && !h.closedByScenario {
 				verifrt.Assert(err == h.cancelErr[0], "C26.close.cancelerror")
 			}
 		}
